@@ -70,6 +70,8 @@ type InvokeContext struct {
 	ReplySent   bool
 	ReplyStream http.ResponseWriter
 	Direct      bool
+	// ResetStarted is set once Reset() begins tearing this reservation down
+	ResetStarted bool
 }
 
 type Server struct {
@@ -229,7 +231,7 @@ func (s *Server) setReplyStream(w http.ResponseWriter, direct bool) (string, err
 	s.mutex.Lock()
 	defer s.mutex.Unlock()
 
-	if s.invokeCtx == nil {
+	if s.invokeCtx == nil || s.invokeCtx.ResetStarted {
 		return "", ErrNotReserved
 	}
 
@@ -391,6 +393,14 @@ func (s *Server) Reset(reason string, timeoutMs int64) (*statejson.ResetDescript
 		Reason:     reason,
 		DeadlineNs: deadlineNsFromTimeoutMs(timeoutMs),
 	}
+
+	// from now on no invoke may be attached to the reservation that is being reset
+	s.mutex.Lock()
+	if s.invokeCtx != nil {
+		s.invokeCtx.ResetStarted = true
+	}
+	s.mutex.Unlock()
+
 	go func() {
 		select {
 		case s.interruptedResponseChan <- reset:
